@@ -203,9 +203,40 @@ def rule_3vl(facts):
     return r
 
 
+def rule_floordiv(facts):
+    """`(x / d) * d` truncates toward zero. For timestamps (signed, negative before 1970) flooring to a unit has to round toward negative
+    infinity: date_trunc('day', <1969-12-31 23:59:59>) must be 1969-12-31, not 1970-01-01. In the datetime functions a product whose factor
+    is a signed quotient by the same divisor is rejected (div_euclid is the flooring form)."""
+    r = RuleResult("C05-FLOORDIV", "datetime functions never floor a signed value with `(x / d) * d` (truncation toward zero)", floor=0)
+    n = 0
+    for rec in facts.all_fns(["glaredb_core"], contains="::datetime::"):
+        if "::datetime::" not in rec["id"] or "::tests::" in rec["id"]:
+            continue
+        n += 1
+        fn = Fn(rec)
+        for b, i, pl, rv, ln in fn.assigns():
+            if rv[0] == "bin" and rv[1].startswith("Mul") and rv[4] in ("i8", "i16", "i32", "i64", "i128"):
+                for q, d in ((rv[2], rv[3]), (rv[3], rv[2])):
+                    if q[0] not in ("c", "m"):
+                        continue
+                    o = fn.origin(q, at=b)
+                    if o[0] == "rv" and o[1][0] == "bin" and o[1][1].startswith("Div"):
+                        d1 = fn.origin(o[1][3], at=b) if o[1][3][0] in ("c", "m") else ("k", str(o[1][3]))
+                        d2 = fn.origin(d, at=b) if d[0] in ("c", "m") else ("k", str(d))
+                        if d1[:2] == d2[:2]:
+                            r.functions.add(fn.id)
+                            r.inst({"fn": fn.id, "line": ln}, False)
+                            r.violate(fn.id, "truncating-floor", f"`(x / d) * d` at line {ln} floors a signed value by truncation toward zero: values before the epoch are rounded up",
+                                      rec["file"], ln)
+    r.notes.append(f"{n} datetime functions scanned")
+    if n < 5:
+        r.missing_anchor("datetime function bodies")
+    return r
+
+
 def run(ctx):
     facts = ctx["facts"]
-    return [rule_null(facts), rule_prec(facts), rule_idxspace(facts), rule_3vl(facts)]
+    return [rule_null(facts), rule_prec(facts), rule_idxspace(facts), rule_3vl(facts), rule_floordiv(facts)]
 
 
 CLAIM = {
